@@ -123,6 +123,33 @@ struct Harness {
       exprs.push_back(&L.int_type()); exprs.push_back(types[types.size() / 2]);
    }
 
+   // Declarations are expressions too.  A name declared twice in one scope (same name, same type) gives two declaration nodes that
+   // share a master: as operands they are different arguments.  Every declaration kind the scopes make joins the pool, each
+   // declared two or three times, in the global scope and in a namespace.
+   void declarations_as_expressions()
+   {
+      const Lexicon& L = lex;
+      impl::Namespace* ns = lex.make_namespace(*unit.global_region());
+      impl::Scope* scopes[] = { unit.global_scope(), &ns->body.scope };
+      Req p0; p0.ctor = PROD; Req fr; fr.ctor = FN; fr.t1 = static_cast<const Type*>(execute(p0, 0)); fr.t2 = &L.void_type();      // through the model
+      auto& ft = *static_cast<const Function*>(static_cast<const Type*>(execute(fr, 0)));
+      int k = 0;
+      for (auto sc : scopes) {
+         auto nm = [&](const char* stem) -> const Name& { std::string s = std::string(stem) + std::to_string(k); return lex.get_identifier(u8v(s)); };
+         for (int rep = 0; rep < 3; ++rep) {
+            exprs.push_back(sc->make_typedecl(nm("S"), L.class_type()));
+            exprs.push_back(sc->make_typedecl(nm("E"), L.enum_type()));
+            exprs.push_back(sc->make_var(nm("x"), L.int_type()));
+            exprs.push_back(sc->make_fundecl(nm("f"), ft));
+            exprs.push_back(sc->make_alias(nm("A"), static_cast<const Expr&>(L.int_type())));
+            exprs.push_back(sc->make_field(nm("m"), L.char_type()));
+            ctx().count("declarations_offered_as_expression_operands", 6);
+            if (rep) ctx().count("redeclarations_offered_as_expression_operands", 6);
+         }
+         ++k;
+      }
+   }
+
    const Product& some_product()
    {
       if (products.empty() || rng.chance(30)) {
@@ -445,6 +472,7 @@ static void random_history(std::uint64_t seed, long long nrequests, int hist_no)
 {
    Harness H(seed);
    H.types_as_expressions();
+   H.declarations_as_expressions();
    for (long long i = 0; i < nrequests; ++i) {
       if (!H.history.empty() && H.rng.chance(40)) {
          // re-request an earlier key, uniformly chosen, possibly through an equivalent spelling
@@ -471,6 +499,7 @@ static void structured_history(std::uint64_t seed, long long nkeys, const char* 
 {
    Harness H(seed);
    H.types_as_expressions();
+   H.declarations_as_expressions();
    std::vector<Req> reqs;
    for (long long i = 0; i < nkeys; ++i) { Req r = H.fresh(); if (r.ctor == PROD || r.ctor == SUM || r.ctor == FN || r.ctor == TOR || r.ctor == FORALL) { r = Req{}; r.ctor = PTR; r.t1 = &H.pick_type(); } H.execute(r, 0); reqs.push_back(r); }
    // now build a fresh layer of keys over the pool, in controlled operand-address order
@@ -507,7 +536,7 @@ static void body(Ctx& C)
    C.assume("node identity (address) is the observable; keys use addresses for equality only");
    C.assume("get_product/get_sum(const Sequence&) are given sequences owned by the Lexicon, or - only for a product/sum that already exists - one client-owned sequence object refilled for every such request");
    for (int c = 0; c < NCTOR; ++c) { C.need(std::string("distinct_keys:") + ctor_name[c]); C.need(std::string("re_requests:") + ctor_name[c]); }
-   C.need("seq_entry_point_sequence"); C.need("seq_entry_point_client_scratch_sequence"); C.need("types_offered_as_expression_operands"); C.need("seq_entry_point_warehouse"); C.need("table_validations"); C.need("successive_lexicons_in_one_slot"); C.need("as_type_over_an_as_type_with_transfer"); C.need("mirror_requests");
+   C.need("seq_entry_point_sequence"); C.need("seq_entry_point_client_scratch_sequence"); C.need("types_offered_as_expression_operands"); C.need("redeclarations_offered_as_expression_operands"); C.need("seq_entry_point_warehouse"); C.need("table_validations"); C.need("successive_lexicons_in_one_slot"); C.need("as_type_over_an_as_type_with_transfer"); C.need("mirror_requests");
    for (int i = 0; i < 4; ++i) C.need(std::string("fn_overload_") + std::to_string(i));
 
    const int histories = C.thorough ? 12 : 3;
